@@ -1025,7 +1025,7 @@ class Mps(MatrixProduct):
                     rtensor = xp.tensordot(rtensor, us, axes=(-1, -1))
 
                     environ_mps[imps] = xp.tensordot(asxp(environ_mps[imps]), us, axes=(-1, 0))
-                    environ_mps.qn[imps + 1] = qnrset
+                    environ_mps.qn[imps + 1] = np.array(qnrset)
                     environ_mps.qnidx = imps
 
                     S_inv = u.conj().dot(xp.diag(1.0 / regular_s)).T
@@ -1242,7 +1242,7 @@ class Mps(MatrixProduct):
                 rtensor = tensordot(rtensor, us, axes=(-1, -1))
 
                 environ_mps[imps] = tensordot(environ_mps[imps], us, axes=(-1, 0))
-                environ_mps.qn[imps + 1] = qnrset
+                environ_mps.qn[imps + 1] = np.array(qnrset)
                 environ_mps.qnidx = imps
 
                 S_inv = u.conj().dot(np.diag(1.0 / regular_s)).T
@@ -1341,7 +1341,7 @@ class Mps(MatrixProduct):
 
                 if not mps.to_right and imps != 0:
                     mps[imps] = vt.reshape([-1] + shape[1:])
-                    mps.qn[imps] = qnrset
+                    mps.qn[imps] = np.array(qnrset)
                     mps.qnidx = imps-1
 
                     r_array = environ.GetLR(
@@ -1374,7 +1374,7 @@ class Mps(MatrixProduct):
 
                 elif mps.to_right and imps != len(mps) - 1:
                     mps[imps] = u.reshape(shape[:-1] + [-1])
-                    mps.qn[imps + 1] = qnlset
+                    mps.qn[imps + 1] = np.array(qnlset)
                     mps.qnidx = imps+1
 
                     l_array = environ.GetLR(
